@@ -4,7 +4,7 @@ import os
 import subprocess
 
 import sumdbmc
-from vcore import finish, replay_one, record_and_monitor, Infra, BUILD, GOENV, log
+from vcore import finish, replay_one, replay_run, record_and_monitor, Infra, BUILD, GOENV, log
 
 RULE = ("E1: SumdbClient with several threads and clients, every separately atomic region of the implementation a separate action "
         "(sync.Once initialisation, record-cache claim/wait, cache and network reads, snapshot of the in-memory head, compare-and-set "
@@ -100,4 +100,5 @@ def replay(ctx, path, verbose=False):
     if v.get("sig") == "c14:data-race":
         ctx.build_harness(race=True)
         return any(race_run(ctx, 200) for _ in range(3))
-    return replay_one(ctx, path, verbose)
+    # free-running goroutines: the same seed does not give the same interleaving; try several times
+    return replay_run(ctx, path, verbose, attempts=12)
